@@ -3173,6 +3173,11 @@ def _value_sources(e, binds, depth=0):
         return _value_sources(e["a"], binds, depth + 1)
     if k in ("ret", "break", "continue"):
         return set()
+    if k == "tup":
+        out = set()
+        for it in e.get("items", []):
+            out |= _value_sources(it, binds, depth + 1)
+        return out
     if k == "macro" or k == "other":
         return {("other", (e.get("src") or e.get("text") or "expression")[:40])}
     return {("other", k)}
@@ -5120,4 +5125,42 @@ def tab14(ctx):
                      "a branch taken on the %s presence bit uses %s: the payload of another sub-node is edited depending on whether THIS one is present -- e.g. the pharyngeal features (ATR/RTR) of every segment without a dorsal node are cleared, so a stress-only rule turns `tˤ` into an unspellable segment" % (f, ", ".join(other)))
     if n < 14:
         raise AnchorMissing("TAB-14: %d methods of Place examined (expected >= 14)" % n)
+    return r
+
+
+# ---------------------------------------------------------------- CLI-18: a stage of `seq` runs and reports with what the tag itself configures
+
+def cli18(ctx):
+    """seq::run_sequence runs every entry of a tag with `asca::run(&entry.rules, &trace[i], &into, &from)`. (a) `into` / `from`
+    are the tag's OWN alias file (parse_alias) or empty: the words of a `%parent` tag are the parent's output, already
+    IPA, and the root's deromanisers are not applied to them again (get_orig_alias_into is for `conv tag --recurse`
+    only). (b) When a stage fails, the error is printed against the very rule list, and the very aliases, the stage was
+    run with -- the same expressions in `asca::run(..)` and `print_asca_errors(..)`: an error's group index counts groups
+    of the list that was run (the filtered one), not of the file as written."""
+    r = RuleResult("CLI-18", "seq::run_sequence: the aliases of a stage come from the tag's own alias file (or are empty), and errors are printed against the same rules / aliases the stage was run with", floor=4)
+    bn = ctx.bin
+    b = ctx.fn(bn, "asca_bin::cli::seq::run_sequence")
+    root = b.hir["body"]
+    binds = Bindings(root, b.hir.get("params"))
+    ev = _CaretEval(bn)
+    runs = [x for x in hirq.walk(root) if x["e"] == "call" and (hirq.strip(x["f"]).get("path") or "") == "asca::run" and len(x["args"]) == 4]
+    prints = [x for x in hirq.walk(root) if x["e"] == "call" and (hirq.strip(x["f"]).get("path") or "").endswith("util::print_asca_errors") and len(x["args"]) == 5]
+    if len(runs) != 1 or len(prints) != 1:
+        raise AnchorMissing("CLI-18: run_sequence: asca::run (%d) / print_asca_errors (%d) call sites" % (len(runs), len(prints)))
+    run, prn = runs[0], prints[0]
+    for what, ai in (("into", 2), ("from", 3)):
+        ss = _value_sources(run["args"][ai], binds)
+        ok = bool(ss) and all(s[0] == "call" and (s[1].endswith("parse::parse_alias") or s[1].endswith("Vec::<T>::new") or s[1].endswith("Vec::new") or "vec::Vec" in s[1] and s[1].endswith("::new")) for s in ss)
+        r.inst("run_sequence: `%s` of a stage is the tag's own alias file or empty" % what, fn_loc(b, run.get("ln")), "ok" if ok else "report")
+        if not ok:
+            r.report("CLI-18|run_sequence|%s" % what, fn_loc(b, run.get("ln")), b.path,
+                     "the `%s` aliases a stage is run with do not come from the tag's own alias file alone (built from %s): a `%%parent` tag without an alias inherits the root's deromanisers, which are then applied to the parent's IPA output again at every stage -- `seq` no longer equals the exported history (`conv tag --recurse`), which applies them once"
+                     % (what, ", ".join(sorted("%s %s" % s for s in ss))))
+    for what, ri, pi in (("rules", 0, 2), ("into", 2, 3), ("from", 3, 4)):
+        a1, a2 = ev.canon(run["args"][ri], {}), ev.canon(prn["args"][pi], {})
+        ok = a1 == a2
+        r.inst("run_sequence: errors are printed against the same `%s` the stage was run with" % what, fn_loc(b, prn.get("ln")), "ok" if ok else "report")
+        if not ok:
+            r.report("CLI-18|run_sequence|print-%s" % what, fn_loc(b, prn.get("ln")), b.path,
+                     "a failed stage is run with `%s` but its error is printed against `%s`: the group / line index inside the error counts in the list that was run, so with a `!` / `~` filter the message quotes another rule (or the formatter indexes out of bounds)" % (a1, a2))
     return r
